@@ -123,7 +123,7 @@ PROPS = {
 # headline theorems that must exist (and be axiom-clean) in each property's namespace: removing,
 # renaming or failing to prove one of them is a broken proof obligation
 REQUIRED = {
- 'C01':['transfer_conserves','transfer_others_untouched','sweep_moves_exactly','payout_conserves','applySend_total','handle_total','vesting_never_changes_supply','tie_bank_mutators','tie_minter_before_distributor'],
+ 'C01':['transfer_conserves','transfer_others_untouched','sweep_moves_exactly','payout_conserves','applySend_total','handle_total','vesting_never_changes_supply','distributor_block_ledger','bank_send_ledger','bank_burn_ledger','tie_bank_mutators','tie_minter_before_distributor'],
  'C02':['path_independent','cadence_irrelevant','valid_of_validate','linear_exact','carry_exact','exParams_valid'],
  'C03':['books_after_block','books_after_block_nonvacuous','books_after_block_bridge','bridge_checked_block','allSubOkB_sound','nonnegB_sound','validated_params_books'],
  'C04':['share_truncation','allocation_conserves','no_main_dest_all_to_states','cumulative_allocation','payout_carry','cumulative_receipts_drift','faithful_allocation_conserves','distShares_states'],
